@@ -22,7 +22,7 @@ using namespace std;
 using js::J;
 
 static const char* kPath = ".ninja_deps";
-static vector<string> g_outs = {"o1", "o2x"};
+static vector<string> g_outs = {"o1", "o2x", "o3"};   // o3 is a second output of o1's statement
 static vector<string> g_deps = {"d", "de", "dep", "deps"};  // every padding case (len mod 4 = 1,2,3,0)
 
 typedef map<string, lp::DepsEntry> DepsMap;
@@ -42,9 +42,17 @@ struct World {
     EvalString cmd2; cmd2.AddText("cc");
     r2->AddBinding("command", cmd2);
     state->bindings_.AddRule(std::unique_ptr<const Rule>(r2));
+    Edge* o1_edge = nullptr;
     for (auto& o : live) {
       bool build_level = o == "o2x";
+      if (o == "o3" && o1_edge) {
+        // a statement with two outputs: both have records of their own, both are live as long as the statement uses deps
+        string err2;
+        state->AddOut(o1_edge, o, 0, &err2);
+        continue;
+      }
       Edge* e = state->AddEdge(build_level ? r2 : r);
+      if (o == "o1") o1_edge = e;
       if (build_level) {
         BindingEnv* env = new BindingEnv(&state->bindings_);
         env->AddBinding("deps", "gcc");
@@ -84,7 +92,7 @@ struct Rec { int out; int64_t mtime; vector<int> deps; };
 struct Op {
   enum Kind { kSession, kRecompact, kLoadOnly, kBurst } kind = kSession;
   vector<Rec> recs;
-  set<string> live = {"o1", "o2x"};
+  set<string> live = {"o1", "o2x", "o3"};
   string label;
 };
 
@@ -109,7 +117,7 @@ struct Harness {
     bool existed = d->Get(kPath) != nullptr;
     string bytes = Bytes(*d);
     lp::DepsLogModel model = lp::ParseDepsLog(bytes);
-    World w({"o1", "o2x"});
+    World w({"o1", "o2x", "o3"});
     DepsLog log;
     string err;
     LoadStatus st = log.Load(kPath, w.state.get(), &err);
@@ -325,6 +333,7 @@ static vector<Op> MainAlphabet(bool thorough, bool with_long) {
   sess({{1, 0x100000007LL, {3, 0}}}, "session(o2x@2^32+7<deps,d>)");
   sess({{1, 5, {2}}}, "session(o2x@5<dep>)");
   sess({{0, 7, {3}}, {1, 7, {0}}}, "session(o1@7<deps> ; o2x@7<d>)");
+  sess({{0, 6, {1}}, {2, 6, {1, 0}}}, "session(o1@6<de> ; o3@6<de,d>)");   // both outputs of the two-output statement
   if (thorough) {
     sess({{0, 5, {0, 1, 2, 3}}}, "session(o1@5<d,de,dep,deps>)");
     sess({{0, 5, {0}}, {0, 5, {0}}}, "session(o1@5<d> twice)");
@@ -332,10 +341,10 @@ static vector<Op> MainAlphabet(bool thorough, bool with_long) {
   }
   if (with_long) sess({{0, 9, {99}}}, "session(o1@9<path at the record size limit>)");
   { Op o; o.kind = Op::kRecompact; o.label = "recompact(live={o1,o2x})"; a.push_back(o); }
-  { Op o; o.kind = Op::kRecompact; o.live = {"o1"}; o.label = "recompact(live={o1})"; a.push_back(o); }
+  { Op o; o.kind = Op::kRecompact; o.live = {"o1", "o3"}; o.label = "recompact(live={o1,o3})"; a.push_back(o); }
   { Op o; o.kind = Op::kRecompact; o.live = {}; o.label = "recompact(live={})"; a.push_back(o); }
   { Op o; o.kind = Op::kBurst; o.label = "burst(1002 x o1)"; a.push_back(o); }
-  { Op o; o.kind = Op::kBurst; o.live = {"o1"}; o.label = "burst(1002 x o1; live={o1})"; a.push_back(o); }
+  { Op o; o.kind = Op::kBurst; o.live = {"o1", "o3"}; o.label = "burst(1002 x o1; live={o1,o3})"; a.push_back(o); }
   return a;
 }
 
@@ -373,7 +382,7 @@ int main(int argc, char** argv) {
       vfs::disk = &d;
       bool ok_big = false;
       {
-        World w({"o1", "o2x"});
+        World w({"o1", "o2x", "o3"});
         DepsLog log;
         string err;
         log.OpenForWrite(kPath, &err);
